@@ -69,7 +69,7 @@ type faultCase struct {
 func c01(args []string) {
 	c := chk.New("C01", "fault_enumeration", args)
 	c.Build(false)
-	c.Rule("directed topologies (single task; 2-output task feeding two consumers; 6 parallel tasks with fan-in; task with additional files; task whose declared output is a directory of three files; task with a streaming output beside two file outputs) x output-path shapes (plain, nested new directories, ../, absolute) x {command, Go function}; faults: every command failure mode on tasks in turn (exit non-zero before/mid/after writing, SIGKILL, SIGSEGV, shell killed, output omitted / misplaced), the process group killed by the command itself before / in the middle of / after writing, the group killed at hook crash points of every task (enumerated from the event log of a crash-free dry run), kills at logical instants (k-th line of the command trace); oracle after every terminated run: a file at a declared final path implies a successful end event of that task and the complete reference bytes; commands stat their own final path while running (must not exist); every other new file lies inside a _scipipe_tmp.* directory; commands whose output is written by a helper that outlives them (no failure at all: nothing may be visible before the helper is done); Go-function tasks also fail by panicking (after half / all of the output is written); commands that are scripts of several lines in which a line after the tool's successful end fails; commands that run two tools side by side ('tool1 & tool2; wait', three spellings, second tool also failing): both tools stat the final paths of both outputs while they run; six tasks failing at once with long error reports on a slowly read error stream (the failures overlap in time). distinct_nontrivial = distinct (topology, path shape, kind, fault, target) whose fault really fired (kill observed / failing command ran)")
+	c.Rule("directed topologies (single task; 2-output task feeding two consumers; 6 parallel tasks with fan-in; task with additional files; task whose declared output is a directory of three files; task with a streaming output beside two file outputs) x output-path shapes (plain, nested new directories, ../, absolute) x {command, Go function}; faults: every command failure mode on tasks in turn (exit non-zero before/mid/after writing, SIGKILL, SIGSEGV, shell killed, output omitted / misplaced), the process group killed by the command itself before / in the middle of / after writing, the group killed at hook crash points of every task (enumerated from the event log of a crash-free dry run), kills at logical instants (k-th line of the command trace); oracle after every terminated run: a file at a declared final path implies a successful end event of that task and the complete reference bytes; commands stat their own final path while running (must not exist); every other new file lies inside a _scipipe_tmp.* directory; commands whose output is written by a helper that outlives them (no failure at all: nothing may be visible before the helper is done); Go-function tasks also fail by panicking (after half / all of the output is written); commands that are scripts of several lines in which a line after the tool's successful end fails; faults injected by strace into the library's own write(2) of a Go function's OutIP().Write() (ENOSPC / EDQUOT / EIO on the first or second write to the temp file); commands that run two tools side by side ('tool1 & tool2; wait', three spellings, second tool also failing): both tools stat the final paths of both outputs while they run; six tasks failing at once with long error reports on a slowly read error stream (the failures overlap in time). distinct_nontrivial = distinct (topology, path shape, kind, fault, target) whose fault really fired (kill observed / failing command ran)")
 	c.Assume("working directory, ../ targets and absolute targets are on one file system", "destination directories of ../ and absolute outputs exist before the run (as the property allows)", "<path>.audit.json files and empty directories are not judged")
 	rng := c.Rand("c01")
 	var tcs []topoCase
@@ -612,6 +612,7 @@ func c01(args []string) {
 		})
 	}
 	c01backgroundJobs(c)
+	c01writeFaults(c)
 	c.Finish()
 }
 
@@ -627,6 +628,72 @@ func faultClass(label string) string {
 		return classOf(label[5:])
 	}
 	return label
+}
+
+// c01writeFaults: faults in the library's own file writing. A Go function hands its result to task.OutIP(port).Write();
+// strace makes the first / second write(2) to that file fail with ENOSPC or EDQUOT (a full disk, a quota): the
+// function cannot know, so the library must fail the task - no file at the final path, exit status non-zero.
+func c01writeFaults(c *chk.Ctx) {
+	run.Parallel(c.Pick(4, 12), func(i int) {
+		root := c.CaseDir()
+		defer c.Drop(root)
+		s := &spec.Spec{Name: "writefault", MaxTasks: 2, Sources: map[string]string{"in.txt": "x\n"}}
+		outPat := []string{"w.out", "wd2/deep/w.out"}[i%2]
+		s.Procs = append(s.Procs, &spec.Proc{Name: "src", Kind: spec.KFileSource, Files: []string{"in.txt"}},
+			&spec.Proc{Name: "W", Kind: spec.KGoFunc, WriteAPI: true, Cmd: spec.BuildCmd("W", []spec.PortDecl{{Name: "in"}}, []spec.PortDecl{{Name: "out"}}, nil, nil, map[string]string{"size": "300000"}), Outs: []*spec.Out{{Port: "out", Pattern: outPat}}},
+			&spec.Proc{Name: "after", Kind: spec.KCmd, Cmd: spec.BuildCmd("after", []spec.PortDecl{{Name: "in"}}, []spec.PortDecl{{Name: "out"}}, nil, nil, nil)})
+		s.Conns = append(s.Conns, &spec.Conn{From: "src.out", To: "W.in"}, &spec.Conn{From: "W.out", To: "after.in"})
+		exp := evalRef(s, nil)
+		if exp.Err != "" || len(exp.ByProc["W"]) != 1 || exp.ByProc["W"][0].TempDir == "" {
+			c.Broken("reference cannot evaluate the write-fault shape: " + exp.Err)
+		}
+		wd := filepath.Join(root, "wd")
+		tmpFile := filepath.Join(wd, exp.ByProc["W"][0].TempDir, outPat)
+		errno := []string{"ENOSPC", "EDQUOT", "EIO"}[i%3]
+		os.MkdirAll(filepath.Join(root, "meta"), 0777)
+		wrap := []string{"strace", "-f", "-qq", "-e", "trace=write,pwrite64,writev", "-P", tmpFile, "-o", filepath.Join(root, "meta", "strace.log"),
+			"-e", fmt.Sprintf("inject=write,pwrite64,writev:error=%s:when=%d", errno, 1+(i/3)%2)}
+		cs := &run.Case{Root: root, Bin: c.Bin, Spec: s, Env: Cfg{Buf: 128, Procs: 2}.env(), Wrap: wrap, Soft: 60 * time.Second, Hard: 150 * time.Second}
+		c.Eval(1)
+		res := cs.Run()
+		desc := map[string]interface{}{"spec": s, "injected": errno + " on a write to " + tmpFile, "exit": res.Exit}
+		if strings.HasPrefix(res.Hang, "inconclusive:environment") {
+			res.Hang = "" // the "no space left on device" in the output is the injected fault, not the machine
+		}
+		if res.Hang != "" {
+			c.Inconclusive("write fault: " + res.Hang)
+			return
+		}
+		sl, _ := os.ReadFile(filepath.Join(root, "meta", "strace.log"))
+		if !strings.Contains(string(sl), "(INJECTED)") {
+			// a single small write, or the file was written in another way: the fault did not fire
+			c.Count("write_faults_not_fired", 1)
+			if res.Exit != 0 {
+				c.Violation("fault-free:dry-run-failed", fmt.Sprintf("no write was failed, yet the workflow exited %d: %s", res.Exit, tail(res.Output(), 300)), desc)
+			}
+			return
+		}
+		var ps []mon.Problem
+		snap := run.Snap(wd)
+		if e, ok := snap[filepath.Clean(outPat)]; ok && e.Mode == "f" {
+			ps = append(ps, mon.Problem{Sig: "final-path-without-successful-command", Msg: fmt.Sprintf("a write of the Go function's output failed with %s, yet %s is at its final path (%d bytes of 300000)", errno, outPat, e.Size)})
+		}
+		if res.Exit == 0 || res.Returned {
+			ps = append(ps, mon.Problem{Sig: "final-path-without-successful-command", Msg: fmt.Sprintf("a write of the Go function's output failed with %s, yet the workflow reported success (exit %d)", errno, res.Exit)})
+		}
+		for _, e := range res.Trace {
+			if e.Ev == "start" && e.ID == "after" {
+				ps = append(ps, mon.Problem{Sig: "final-path-without-successful-command", Msg: "the consumer of the output whose write failed was executed"})
+			}
+		}
+		if len(ps) > 0 {
+			desc["problems"] = mon.Summarize(ps, 10)
+			c.Violation(ps[0].Sig+"|write-fault", strings.Join(mon.Summarize(ps, 4), "\n  "), desc)
+			return
+		}
+		c.Count("write_faults_fired", 1)
+		c.Nontrivial(fmt.Sprintf("writefault|%s|%d|%s", errno, 1+(i/3)%2, outPat))
+	})
 }
 
 // c01backgroundJobs: the command runs two tools side by side ("tool1 ... & tool2 ... ; wait"): both write to the
